@@ -43,6 +43,17 @@ CLAIMED = {
         "technique": "flow-sensitive dependency comparison of guards and casts + guard dominance with scalar operands",
         "design_ref": "DESIGN.md §3 R-GUARDDEP/R-CONTRA/R-GUARD, §4 C12",
     },
+    "C14": {
+        "text": "Decides, for every serialization triple (trait impls and inherent full / selected-terms / polynomial "
+                "formats, containers and RNS-plaintext wrappers) and per scheme projection: the writer's and the reader's "
+                "wire grammars are equal as trees (typed leaves in order, loop nesting, conditionals); the size function's "
+                "fixed byte count equals the writer's per conditional branch and has a variable term wherever the writer "
+                "loops; readers of possibly seed-compressed objects expand the seed before returning.",
+        "note": _TB + "Not decided: equality of restored objects as values, numerical loop bounds, the closed-form "
+                "variable part of the size functions, reconstruction in an independently built context.",
+        "technique": "wire-grammar extraction from typed HIR with scheme projection; tree comparison of writer/reader/size",
+        "design_ref": "DESIGN.md §3 R-WIRE, §4 C14",
+    },
     "C15": {
         "text": "Decides, for every call site in the serialization API's call tree (all functions of the local "
                 "*Serializable* trait impls and inherent serialize*/deserialize* functions plus their callees, "
@@ -141,7 +152,7 @@ NOT_APPLICABLE = {
     "C01": _NYB, "C02": _NYB,
     "C07": "every clause compares a reported integer with exact big-integer arithmetic on runtime phase/noise "
            "values; no necessary condition is visible in the shape of the code (DESIGN.md §5)",
-    "C09": _NYB, "C10": _NYB, "C13": _NYB, "C14": _NYB,
+    "C09": _NYB, "C10": _NYB, "C13": _NYB,
     "C16": _NYB,
     "C19": "every clause is about where coefficients land as a function of runtime indices and counts; static "
            "shape rules do not bound them (DESIGN.md §5)",
